@@ -103,7 +103,27 @@ type c20Target struct {
 	Samples   int    `json:"samples"`
 	Dropped   int    `json:"dropped"`
 	HoldMs    int    `json:"holdMs"`
+	// BreakBody: a failing probe is not a refused connection but an answer with status 200 whose body breaks off
+	// after a part of the samples (the connection is lost mid-body)
+	BreakBody bool `json:"breakBody,omitempty"`
 }
+
+// brokenBody delivers data and then fails.
+type brokenBody struct {
+	data []byte
+	off  int
+}
+
+func (b *brokenBody) Read(p []byte) (int, error) {
+	if b.off >= len(b.data) {
+		return 0, fmt.Errorf("read tcp 10.0.0.1:4711->10.0.0.2:9100: i/o failure (scripted)")
+	}
+	n := copy(p, b.data[b.off:])
+	b.off += n
+	return n, nil
+}
+
+func (b *brokenBody) Close() error { return nil }
 
 type c20Event struct {
 	AtMs int    `json:"atMs"`
@@ -164,6 +184,14 @@ func (f *farm) RoundTrip(r *http.Request) (*http.Response, error) {
 	f.inflight[key]--
 	f.log = append(f.log, reqRec{Hash: h, Inc: inc, Start: start, End: end, OK: ok})
 	f.mu.Unlock()
+	if !ok && sp != nil && sp.BreakBody {
+		var b bytes.Buffer
+		for i := 0; i < (sp.Samples+1)/2; i++ {
+			fmt.Fprintf(&b, "keep_metric{i=\"%d\"} 1\n", i)
+		}
+		b.WriteString("keep_metric{i=\"torn")
+		return &http.Response{StatusCode: 200, Status: "200 OK", Body: &brokenBody{data: b.Bytes()}, Header: http.Header{"Content-Type": []string{"text/plain"}}, Request: r}, nil
+	}
 	if !ok {
 		return nil, fmt.Errorf("connection refused (scripted, attempt %d)", n)
 	}
@@ -178,7 +206,7 @@ func (f *farm) RoundTrip(r *http.Request) (*http.Response, error) {
 }
 
 func recC20() *vkit.Recorder {
-	r := vkit.Rec("C20", "exploration", "rapid-generated schedules over the real Explore + real scrape manager with a counting in-memory transport: 1-6 targets with scripted probe outcomes, metric relabel rules of three styles (drop by metric name; drop / keep on (metric name, label) pairs that treat samples of one metric differently) (fail k times then succeed, fail for ever; responses held 1-3 ms), 1-4 workers, retry interval 20 ms (hook), events get / remove / re-add / drop-job at multiples of 5 ms, then Gets every 5 ms until every reachable target succeeded and 10 further intervals; unit TestC20Flood: 9 999-20 001 targets asked for at once (queue capacity 10 000), each probed exactly once; oracle over the request log (start/end per probe) and the values returned by Get; non-trivial = a target with >=1 failure before its success, or removed while failing; distinct = digest of the schedule")
+	r := vkit.Rec("C20", "exploration", "rapid-generated schedules over the real Explore + real scrape manager with a counting in-memory transport: 1-6 targets with scripted probe outcomes (a failing probe is a refused connection or a 200 answer whose body breaks off after half of the samples), metric relabel rules of three styles (drop by metric name; drop / keep on (metric name, label) pairs that treat samples of one metric differently) (fail k times then succeed, fail for ever; responses held 1-3 ms), 1-4 workers, retry interval 20 ms (hook), events get / remove / re-add / drop-job at multiples of 5 ms, then Gets every 5 ms until every reachable target succeeded and 10 further intervals; unit TestC20Flood: 9 999-20 001 targets asked for at once (queue capacity 10 000), each probed exactly once; oracle over the request log (start/end per probe) and the values returned by Get; non-trivial = a target with >=1 failure before its success, or removed while failing; distinct = digest of the schedule")
 	r.Assume("timing is used only in directions that cannot flake: gaps are lower-bounded by time.Sleep in the code under test; a missing retry is reported only after a 5 s grace period (250 retry intervals)")
 	return r
 }
@@ -538,7 +566,8 @@ func genC20(t *rapid.T) *c20Case {
 		l := fmt.Sprintf("t%d", i)
 		c.Targets = append(c.Targets, c20Target{Hash: uint64(i + 1), Job: rapid.SampledFrom([]string{"ja", "ja", "jb"}).Draw(t, l+"-job"),
 			FailFirst: rapid.SampledFrom([]int{0, 0, 1, 2, 3, -1}).Draw(t, l+"-fail"), Samples: rapid.IntRange(0, 9).Draw(t, l+"-samples"),
-			Dropped: rapid.IntRange(0, 5).Draw(t, l+"-dropped"), HoldMs: rapid.IntRange(1, 3).Draw(t, l+"-hold")})
+			Dropped: rapid.IntRange(0, 5).Draw(t, l+"-dropped"), HoldMs: rapid.IntRange(1, 3).Draw(t, l+"-hold"),
+			BreakBody: rapid.IntRange(0, 2).Draw(t, l+"-breakBody") == 0})
 	}
 	ne := rapid.IntRange(1, 14).Draw(t, "nEvents")
 	for i := 0; i < ne; i++ {
